@@ -18,7 +18,7 @@ EXPLANATION = ("address/burstcount/byteenable/read/write/writedata are free per 
                "beats have reached the memory the memory's byte equals the reference.")
 
 
-def av_bench(name, av_dw=32, port_dw=32, max_burst=4, base=0, aw_native=4, gaps=False):
+def av_bench(name, av_dw=32, port_dw=32, max_burst=4, base=0, aw_native=4, gaps=False, progress=None):
     from litex.soc.interconnect import avalon
     from litedram.frontend.avalon import LiteDRAMAvalonMM2Native
     ratio_up = port_dw // av_dw if port_dw > av_dw else 1
@@ -106,6 +106,13 @@ def av_bench(name, av_dw=32, port_dw=32, max_burst=4, base=0, aw_native=4, gaps=
         bad("more_native_write_beats_than_accepted_avalon_beats", nat_w + stub.resp_w > acc_beats + wacc)
         bad("memory_byte_differs_from_reference_after_all_accepted_beats_were_written",
             (nat_w == acc_beats) & ~wacc & (stub.level == 0) & (mem != ref))
+    if progress:
+        # no hang: with a memory that never stalls (accepts at once, answers as soon as its latency allows) a presented request is
+        # not kept waiting longer than `progress` cycles (generous: one maximal burst in each direction plus the memory latency)
+        asm("memory_never_stalls", ~stub.inputs["stub_cmd_stall"] & stub.inputs["stub_resp_go"])
+        wcnt = Signal(max=progress + 4)
+        top.sync += If(req & av.waitrequest, If(wcnt <= progress, wcnt.eq(wcnt + 1))).Else(wcnt.eq(0))
+        bad("request_kept_waiting_although_memory_never_stalls", wcnt > progress)
     covers = {}
 
     def cov(n, e):
@@ -128,6 +135,8 @@ CONFIGS = {
     "gaps_equal_32_b4": (dict(av_dw=32, port_dw=32, max_burst=4, gaps=True), 20, 24, "qt"),
     "equal_32_b4": (dict(av_dw=32, port_dw=32, max_burst=4), 20, 30, "qt"),
     "equal_32_b2_base": (dict(av_dw=32, port_dw=32, max_burst=2, base=0x40), 20, 28, "qt"),
+    "progress_equal_32_b4": (dict(av_dw=32, port_dw=32, max_burst=4, progress=14), 22, 30, "qt"),
+    "progress_equal_32_b2": (dict(av_dw=32, port_dw=32, max_burst=2, progress=12), 0, 28, "t"),
     "wide_32_on_16": (dict(av_dw=32, port_dw=16, max_burst=2), 0, 24, "t"),
     "narrow_16_on_32": (dict(av_dw=16, port_dw=32, max_burst=2), 0, 24, "t"),
 }
@@ -138,9 +147,14 @@ def run(ctx):
     ctx.assume("Avalon master: request (read/write/address/burstcount/byteenable/writedata) held while waitrequest; burstcount "
                "1..max_burst_length; write-burst beats may be separated by idle cycles; no read presented inside a write burst")
     ctx.assume("benches without the 'gaps_' prefix: no idle cycle between the beats of a write burst (see the known finding)")
+    ctx.assume("'progress_' benches: the memory stub never stalls; a request must not wait longer than 12-14 cycles (no-hang clause)")
     ctx.assume("memory: in-order native stub with the real crossbar's pulse semantics, arbitrary stalls, latency >= 2, <= 3 queued")
     for n, (kw, kq, kt, tiers) in CONFIGS.items():
         if ctx.only and not ctx.only.search(n):
+            continue
+        if n.startswith("progress"):
+            ctx.add(n, kq if ctx.tier == "quick" else kt, timeout=900, min_K=(kq or 22) - 2, chunk=4, cover_required=False,
+                    bads=["request_kept_waiting_although_memory_never_stalls"])
             continue
         if ctx.tier == "quick" and "q" in tiers:
             ctx.add(n, kq, timeout=900, min_K=kq - 4, first_chunk=12, chunk=1, cover_required=False)
